@@ -670,7 +670,8 @@ func (s *scriptedSASLClient) Next(challenge []byte) ([]byte, error) {
 
 func c09ClientRun(c c09ClientCase) Verdict {
 	script := harness.Script{AuthSession: true, Mechs: []string{"XTEST"}, SASL: []harness.SASLScript{c.Server}}
-	r := harness.NewRig(harness.Config{AllowInsecureAuth: true, FragmentReplies: c.Frag}, script)
+	// (the server's command line limit is raised to what RFC 4954 asks of an AUTH line)
+	r := harness.NewRig(harness.Config{AllowInsecureAuth: true, FragmentReplies: c.Frag, MaxLineLength: 12288 + 2}, script)
 	mech := &scriptedSASLClient{c: c}
 	var authErr, noopErr error
 	ok := withClient(r, false, func(cl *smtp.Client, w *harness.Wire) {
@@ -999,6 +1000,16 @@ func c09GenClient(t *rapid.T) c09ClientCase {
 			return nil
 		case 1:
 			o := Octets{}
+			return &o
+		}
+		if rapid.IntRange(0, 5).Draw(t, label+"_long") == 0 {
+			// a ticket or a token: RFC 4954 allows lines of 12288 octets
+			n := rapid.SampledFrom([]int{1400, 1497, 1498, 1499, 1600, 3000, 9000}).Draw(t, label+"_len")
+			k := rapid.IntRange(1, 250).Draw(t, label+"_step")
+			o := make(Octets, n)
+			for i := range o {
+				o[i] = byte(i*k + n)
+			}
 			return &o
 		}
 		o := Octets(rapid.SliceOfN(rapid.Byte(), 1, 12).Draw(t, label))
